@@ -130,6 +130,7 @@ type Endpoint struct {
 	PortNotReserved bool
 	localProto uint8
 	lastRecvd  uint32
+	tsTick     uint32 // free-running mode: how far the target's timestamp clock has advanced
 	Conn       *acceptedConn
 	lis        *lisState
 	w          *World
@@ -226,7 +227,7 @@ func (w *World) performNew(o *op, now time.Duration) {
 	w.Eps = append(w.Eps, ep)
 	w.epByActor[actor] = ep
 	w.Log.add(now, actor, "new", "")
-	w.release(o, opResult{handle: packets.SourceSinkHandle{Source: &simSource{w, ep}, Sink: &simSink{w, ep}}})
+	w.release(o, opResult{handle: packets.SourceSinkHandle{Source: &simSource{w, ep}, Sink: &simSink{w, ep}, MustClosePort: w.Sc.Knobs.MustClosePort}})
 }
 
 func (ep *Endpoint) readReleasable(o *op, now time.Duration) bool {
@@ -485,7 +486,7 @@ func (ep *Endpoint) performWrite(w *World, o *op, now time.Duration) {
 		// The run sends from a port the kernel chose for it. While the run is alive nobody else must be
 		// able to obtain that port (it is what tells concurrent runs to one target apart): a plain
 		// bind to it has to be refused. SACK probes travel on an established connection of their own.
-		if pr.IP.Proto == codec.ProtoUDP || pr.L4.Flags&codec.FlagSYN != 0 {
+		if (pr.IP.Proto == codec.ProtoUDP || pr.L4.Flags&codec.FlagSYN != 0) && !w.Sc.Knobs.MustClosePort {
 			if portObtainable(pr.IP.Proto, pr.IP.Src, pr.L4.SrcPort) {
 				ep.PortNotReserved = true
 				w.stat("probe.local-port-not-reserved")
